@@ -426,6 +426,20 @@ func TestC19_TEMPLATE(t *testing.T) {
 				wantCtl["domain"] = domain
 			}
 		}
+		if c.NoUser {
+			// suppressed: user name and domain are left to the template (kept if it sets them, absent otherwise)
+			for tag, field := range map[string]string{"username": "Username", "domain": "Domain"} {
+				tv, inTemplate := c.Settings.Fields[field]
+				g, present := got[tag]
+				if inTemplate && tv != "" {
+					if !present || g != tv {
+						return viol("c19/suppressed-user-setting", "user name and domain are suppressed: %q must stay the template's %q, generated file has %v (present=%v)", tag, tv, g, present)
+					}
+				} else if present && g != "" {
+					return viol("c19/suppressed-user-setting", "user name and domain are suppressed and the template does not set %q, yet the generated file has %v", tag, g)
+				}
+			}
+		}
 		for k, w := range wantCtl {
 			if !reflect.DeepEqual(got[k], w) {
 				return viol("c19/controlled-setting", "setting %q must be %v (gateway-controlled), generated file has %v", k, w, got[k])
